@@ -188,7 +188,11 @@ def build_expr(e, tags):
         return ColumnFunction("__neg__", (build_expr(e[1], tags),), dtype=int, supporting_engine_types=None)
     if k == "udf":
         sup = (iteration.Engine,) if e[1] in ("itonly", "pdiv") else None
-        return ColumnExpression.function(e[1], build_expr(e[2], tags), dtype=int, supporting_engine_types=sup)
+        arg = build_expr(e[2], tags)
+        if len(repr(e)) % 2:
+            # the other documented spelling of the same thing: argument.method(name, ...)
+            return arg.method(e[1], dtype=int, supporting_engine_types=sup)
+        return ColumnExpression.function(e[1], arg, dtype=int, supporting_engine_types=sup)
     if k == "udfu":
         # same name and arguments as the restricted function (hence == and equal hash), but no engine restriction
         return ColumnExpression.function(e[1], build_expr(e[2], tags), dtype=int, supporting_engine_types=None)
